@@ -22,6 +22,8 @@ func init() {
 	register("C01", "C02.R1", ruleC02R1)
 	register("C01", "C02.R5", ruleC02R5)
 	register("C01", "C02.R7", ruleC02R7)
+	register("C01", "C02.R3", ruleC02R3) // a chunk is owned by the acknowledger only after it was transmitted
+	register("C01", "C02.R4", ruleC02R4) // the chunk in flight is remembered until the acknowledger owns it (hand-back at stop)
 	propExplanation["C01"] = "Decides the structural clauses of at-least-once delivery on every path of the anchored functions: " +
 		"final flush chain of connection/sink/orchestrator/worker buffers (R1-R4), teardown order worker→bufferer.Destroy→onStopped (R5), " +
 		"who may delete a chunk file and that deletion is only reachable from the ACK callback (R6, C02.R1), hand-back of unsent chunks at stop (R7, C02.R5/R7), " +
